@@ -8,6 +8,7 @@
 # (build failure, watchdog, harness defect) — never reported as a violation.
 set -u
 VERIF="${FQV_VERIF_DIR:-/verif}"
+CALLER_DIR="$PWD"
 cd "$VERIF/harness" || exit 2
 export CARGO_NET_OFFLINE=true
 export CARGO_TERM_COLOR=never
@@ -53,11 +54,15 @@ case "$ID" in
     *) PLAIN=1; build_plain ;;
 esac
 if [ "${1:-}" = "--replay" ]; then
+    case "${2:-}" in
+        /*) FILE="$2" ;;
+        *) FILE="$CALLER_DIR/${2:-}" ;;   # relative to where check.sh was called from
+    esac
     # a replay file found by the pass without the verification flag is re-executed there
-    if [ $PLAIN -eq 1 ] && grep -q '"plain_build": *true' "$2" 2>/dev/null; then
-        exec "$VERIF/harness/target-plain/release/fqv" "$ID" --replay "$2"
+    if [ $PLAIN -eq 1 ] && grep -q '"plain_build": *true' "$FILE" 2>/dev/null; then
+        exec "$VERIF/harness/target-plain/release/fqv" "$ID" --replay "$FILE"
     fi
-    exec "$VERIF/harness/target/release/fqv" "$ID" --replay "$2"
+    exec "$VERIF/harness/target/release/fqv" "$ID" --replay "$FILE"
 fi
 TIER="${VERIF_TIER:-${1:-quick}}"
 if [ $PLAIN -eq 1 ]; then
